@@ -1,7 +1,11 @@
 import Oracle.Proto
-/-! Oracle suites of property C02 (registered in Oracle/Main.lean through `suites`). -/
+import Oracle.Mailbox
+/-! Oracle suites of property C02 (shared with C01). -/
 namespace Oracle.C02
 
-def suites : List (String × Suite) := []
+def suites : List (String × Suite) := [
+  ("mailbox", Oracle.Mailbox.model),
+  ("mailbox-judge-c02", Oracle.Mailbox.judge false)
+]
 
 end Oracle.C02
